@@ -57,8 +57,62 @@ def _locals_in_order(fn):
     return names
 
 
+def _copy_propagate(fn):
+    """Remove trivial copies ``tmp = name`` (tmp and name each bound once) by substituting name for tmp."""
+    stores = {}
+    for sub in ast.walk(fn):
+        if isinstance(sub, ast.Name) and isinstance(sub.ctx, ast.Store):
+            stores[sub.id] = stores.get(sub.id, 0) + 1
+    a = fn.args
+    params = set(x.arg for x in a.posonlyargs + a.args + a.kwonlyargs)
+    if a.vararg:
+        params.add(a.vararg.arg)
+    if a.kwarg:
+        params.add(a.kwarg.arg)
+    mapping = {}
+
+    class Drop(ast.NodeTransformer):
+        def visit_Assign(self, node):
+            if len(node.targets) == 1 and isinstance(node.targets[0], ast.Name) and isinstance(node.value, ast.Name):
+                t, v = node.targets[0].id, node.value.id
+                if stores.get(t, 0) == 1 and t not in params and (stores.get(v, 0) <= 1):
+                    mapping[t] = v
+                    return None
+            return node
+
+        def visit_FunctionDef(self, node):
+            if node is fn:
+                return self.generic_visit(node)
+            return node
+
+        visit_AsyncFunctionDef = visit_FunctionDef
+
+    fn = Drop().visit(fn)
+    # resolve chains
+    def final(n):
+        seen = set()
+        while n in mapping and n not in seen:
+            seen.add(n)
+            n = mapping[n]
+        return n
+
+    class Sub(ast.NodeTransformer):
+        def visit_Name(self, node):
+            if node.id in mapping:
+                return ast.copy_location(ast.Name(id=final(node.id), ctx=node.ctx), node)
+            return node
+
+    fn = Sub().visit(fn)
+    # a block emptied by the removal gets a pass
+    for sub in ast.walk(fn):
+        for field in ("body", "orelse", "finalbody"):
+            if isinstance(getattr(sub, field, None), list) and field == "body" and not getattr(sub, field) and isinstance(sub, (ast.If, ast.For, ast.While, ast.Try, ast.With, ast.FunctionDef, ast.AsyncFunctionDef)):
+                setattr(sub, field, [ast.Pass()])
+    return fn
+
+
 def normalised(fn, signatures=None):
-    fn = copy.deepcopy(fn)
+    fn = _copy_propagate(copy.deepcopy(fn))
     rename = {}
     for i, nm in enumerate(_locals_in_order(fn)):
         rename[nm] = "v%d" % i
